@@ -46,7 +46,13 @@ def map_val(v, f):
     if t == 'adt':
         return ('adt', v[1], v[2], tuple(map_val(x, f) for x in v[3]))
     if t == 'sliceiter':
-        return ('sliceiter', map_val(v[1], f))
+        return ('sliceiter', map_val(v[1], f), map_val(v[2], f))
+    if t == 'sub':
+        return ('sub', map_val(v[1], f))
+    if t == 'off':
+        return ('off', map_val(v[1], f), map_val(v[2], f))
+    if t == 'closure':
+        return ('closure', v[1], tuple(map_val(x, f) for x in v[2]))
     return v
 
 
@@ -64,6 +70,15 @@ def collect_pos(v, acc):
             collect_pos(x, acc)
     elif t == 'sliceiter':
         collect_pos(v[1], acc)
+        collect_pos(v[2], acc)
+    elif t == 'sub':
+        collect_pos(v[1], acc)
+    elif t == 'off':
+        collect_pos(v[1], acc)
+        collect_pos(v[2], acc)
+    elif t == 'closure':
+        for x in v[2]:
+            collect_pos(x, acc)
 
 
 def follow(rv, path):
@@ -113,6 +128,56 @@ def refine_label(old, new):
     return None
 
 
+def _pl(l, *proj):
+    return {'local': l, 'proj': list(proj)}
+
+
+def _cp(l, *proj):
+    return {'k': 'copy', 'place': _pl(l, *proj)}
+
+
+def _asg(l, rv):
+    return {'k': 'assign', 'place': _pl(l), 'rv': rv}
+
+
+def _call(name, args, dest, target):
+    return {'k': 'call', 'func': {}, 'resolved': name, 'args': args, 'dest': _pl(dest), 'target': target}
+
+
+def _syn(kind):
+    """find / position / any / all over a slice iterator: _1 = the iterator, _2 = the closure"""
+    NEXT = "<std::slice::Iter<'a, T> as std::iter::Iterator>::next"
+    some_payload = [{'k': 'downcast', 'variant': 1}, {'k': 'field', 'i': 0}]
+    none = {'k': 'aggregate', 'kind': {'agg': 'adt', 'path': 'Option', 'variant': 0}, 'ops': []}
+    hit, miss = {
+        'find': ([_asg(0, {'k': 'aggregate', 'kind': {'agg': 'adt', 'path': 'Option', 'variant': 1}, 'ops': [_cp(6)]})], [_asg(0, none)]),
+        'position': (None, [_asg(0, none)]),
+        'any': ([_asg(0, {'k': 'use', 'op': {'k': 'const', 'val': 1, 'ty': 'bool'}})], [_asg(0, {'k': 'use', 'op': {'k': 'const', 'val': 0, 'ty': 'bool'}})]),
+        'all': ([_asg(0, {'k': 'use', 'op': {'k': 'const', 'val': 0, 'ty': 'bool'}})], [_asg(0, {'k': 'use', 'op': {'k': 'const', 'val': 1, 'ty': 'bool'}})]),
+    }[kind]
+    # for `all` the loop stops at the first element for which the closure is FALSE
+    stop_on = 0 if kind == 'all' else 1
+    blocks = [
+        {'stmts': [], 'term': {'k': 'goto', 'target': 1}, 'cleanup': False},
+        {'stmts': [_asg(4, {'k': 'ref', 'mut': True, 'place': _pl(1)})], 'term': _call(NEXT, [_cp(4)], 3, 2), 'cleanup': False},
+        {'stmts': [_asg(5, {'k': 'discr', 'place': _pl(3)})], 'term': {'k': 'switch', 'op': _cp(5), 'targets': [[0, 6], [1, 3]], 'otherwise': 6}, 'cleanup': False},
+        {'stmts': [_asg(6, {'k': 'use', 'op': _cp(3, *some_payload)})], 'term': _call('__call_closure', [_cp(2), _cp(6)], 7, 4), 'cleanup': False},
+        {'stmts': [], 'term': {'k': 'switch', 'op': _cp(7), 'targets': [[1 - stop_on, 1]], 'otherwise': 5}, 'cleanup': False},
+        None,
+        {'stmts': miss, 'term': {'k': 'return'}, 'cleanup': False},
+    ]
+    if kind == 'position':
+        blocks[5] = {'stmts': [], 'term': _call('__iter_offset', [_cp(1)], 8, 7), 'cleanup': False}
+        blocks.append({'stmts': [_asg(0, {'k': 'aggregate', 'kind': {'agg': 'adt', 'path': 'Option', 'variant': 1}, 'ops': [_cp(8)]})], 'term': {'k': 'return'}, 'cleanup': False})
+    else:
+        blocks[5] = {'stmts': hit, 'term': {'k': 'return'}, 'cleanup': False}
+    return {'name': '__syn_' + kind, 'file': '<std iterator adaptor>', 'line': 0, 'arg_count': 2, 'locals': ['ret', 'iter', 'closure', 'opt', 'ref', 'isize', 'item', 'bool', 'off'], 'blocks': blocks,
+            'parent': {'fn': '__syn_' + kind}, 'vis': 'priv', 'safety': 'safe', 'kind': 'Fn', 'expn': False}
+
+
+SYN = {'__syn_' + k: _syn(k) for k in ('find', 'position', 'any', 'all')}
+
+
 class Machine:
     """config = (stack, start_rel, facts, at_end, hyps)
        stack: tuple of frames (fn, bb, si, locals, dest_local, ret_bb)
@@ -121,7 +186,8 @@ class Machine:
     def __init__(self, bodies, spec, claims, entry, entry_args, inline, track_all=False, param_start=False):
         """claims: list of (marker_lo, marker_hi, path) — the value found at `path` in the return value is either absent
         or a Range whose bounds are claimed to be the positions of the two markers; a marker name None is not claimed."""
-        self.bodies = bodies
+        self.bodies = dict(bodies)
+        self.bodies.update(SYN)
         self.spec = spec
         self.claims = claims
         self.entry = entry
@@ -144,7 +210,7 @@ class Machine:
         locals0 = [None] * len(body['locals'])
         for i, a in enumerate(self.entry_args):
             locals0[i + 1] = a
-        frame = (self.entry, 0, 0, tuple(locals0), None, None)
+        frame = (self.entry, 0, 0, tuple(locals0), None, None, None)
         h0 = frozenset(spec.closure({(spec.d.start, ())}))
         cfg = self.canon(((frame,), 0, (), None, h0))
         self.seen = {cfg: None}
@@ -249,7 +315,7 @@ class Machine:
 
         def f(p):
             return mp.get(p, p) if p < 0 else p
-        nstack = tuple((fr[0], fr[1], fr[2], tuple(map_val(v, f) for v in fr[3]), fr[4], fr[5]) for fr in stack)
+        nstack = tuple((fr[0], fr[1], fr[2], tuple(map_val(v, f) for v in fr[3]), fr[4], fr[5], map_val(fr[6], f) if fr[6] else fr[6]) for fr in stack)
         nh = frozenset((s, tuple(sorted((m, f(p)) for (m, p) in pl))) for (s, pl) in hyps)
         prog_refs = set()
         for fr in stack:
@@ -306,7 +372,7 @@ class Machine:
             groups.setdefault(frozenset(nh), []).append(c)
         out = []
         sh = lambda p: p - 1
-        nstack = tuple((fr[0], fr[1], fr[2], tuple(map_val(v, sh) for v in fr[3]), fr[4], fr[5]) for fr in stack)
+        nstack = tuple((fr[0], fr[1], fr[2], tuple(map_val(v, sh) for v in fr[3]), fr[4], fr[5], map_val(fr[6], sh) if fr[6] else fr[6]) for fr in stack)
         shifted = tuple((p - 1, cl) for (p, cl) in facts)
         for nh, cs in groups.items():
             nh2 = frozenset(self.spec.closure(nh))
@@ -348,6 +414,8 @@ class Machine:
                     v = v[1][pr['i']]
                 elif v[0] == 'adt':
                     v = v[3][pr['i']]
+                elif v[0] == 'closure':
+                    v = v[2][pr['i']]
                 else:
                     raise Unsupported(f'field of {v[0]}')
             elif k == 'downcast':
@@ -366,12 +434,12 @@ class Machine:
     # ------------------------------------------------------------------ stepping
     def step(self, cfg):
         stack, start_rel, facts, at_end, hyps = cfg
-        fn, bb, si, locs, dest, ret_bb = stack[-1]
+        fn, bb, si, locs, dest, ret_bb, post = stack[-1]
         body = self.bodies[fn]
         block = body['blocks'][bb]
 
         def goto(nlocs, nbb, nsi, **kw):
-            ns = stack[:-1] + ((fn, nbb, nsi, tuple(nlocs), dest, ret_bb),)
+            ns = stack[:-1] + ((fn, nbb, nsi, tuple(nlocs), dest, ret_bb, post),)
             nf = kw.get('facts')
             return (ns, start_rel, facts if nf is None else nf, kw.get('at_end', at_end), hyps)
 
@@ -452,14 +520,23 @@ class Machine:
                 return []
             caller = stack[-2]
             cl = list(caller[3])
+            if post is not None:
+                # the frame ran a closure on behalf of a combinator: finish the combinator
+                if post[0] == 'some':
+                    rv = ('adt', 'Option', 1, (rv,))
+                elif post[0] == 'tuple':       # post = ('tuple',): unused
+                    pass
             cl[dest] = rv
-            ns = stack[:-2] + ((caller[0], ret_bb, 0, tuple(cl), caller[4], caller[5]),)
+            ns = stack[:-2] + ((caller[0], ret_bb, 0, tuple(cl), caller[4], caller[5], caller[6]),)
             return [(None, (ns, start_rel, facts, at_end, hyps))]
         if k == 'call':
             name = t.get('resolved') or (t['func'].get('fn') or {}).get('path')
             args = [operand(a) for a in t['args']]
             if t['dest']['proj']:
                 raise Unsupported('call destination is a projection')
+            comb = self.combinator(cfg, stack, locs, name, args, t)
+            if comb is not None:
+                return comb
             if name in self.bodies and self.inline(name):
                 cb = self.bodies[name]
                 nl = [None] * len(cb['locals'])
@@ -469,7 +546,7 @@ class Machine:
                     nl[i + 1] = a
                 if len(stack) > 12:
                     raise Unsupported('call depth')
-                ns = stack + ((name, 0, 0, tuple(nl), t['dest']['local'], t['target']),)
+                ns = stack + ((name, 0, 0, tuple(nl), t['dest']['local'], t['target'], None),)
                 return [(None, (ns, start_rel, facts, at_end, hyps))]
             out = []
             for r in self.summary(cfg, name, args):
@@ -511,6 +588,10 @@ class Machine:
                 return [(('tuple', ops), ae)]
             if kind['agg'] == 'adt':
                 return [(('adt', kind['path'], kind['variant'], ops), ae)]
+            if kind['agg'] == 'closure':
+                if any(isinstance(o, tuple) and o and o[0] == 'ref' for o in ops):
+                    raise Unsupported('closure that captures a mutable reference to a local')
+                return [(('closure', kind['path'], ops), ae)]
             raise Unsupported('aggregate ' + kind['agg'])
         if k == 'unop':
             a = operand(rv['a'])
@@ -536,6 +617,9 @@ class Machine:
                 r = INT(a[1] + sign * b[1])
                 if r[1] < 0:
                     ovf = 1
+            elif sign == 1 and ((a[0] == 'idx' and b[0] == 'off' and b[2] == a) or (b[0] == 'idx' and a[0] == 'off' and a[2] == b)):
+                # start + (position - start): the offset an iterator adaptor reported, added back to where the iteration began
+                r = b[1] if b[0] == 'off' else a[1]
             elif a[0] in ('idx', 'end') and b[0] == 'int':
                 if abs(b[1]) > K:
                     raise Unsupported('index offset larger than the exact gap bound')
@@ -638,6 +722,70 @@ class Machine:
                     return True
         return False
 
+    def combinator(self, cfg, stack, locs, name, args, t):
+        """closure-taking std functions: the closure body (of this crate) is run as a frame; iterator adaptors over the input run a small
+        synthetic loop (SYN) built from next() and the closure"""
+        import re as _re
+        if name is None:
+            return None
+        start_rel, facts, at_end, hyps = cfg[1], cfg[2], cfg[3], cfg[4]
+
+        def push(fname, largs, post=None, poison=None):
+            cb = self.bodies.get(fname)
+            if cb is None:
+                raise Unsupported('body not available: ' + fname)
+            nl = [None] * len(cb['locals'])
+            for i, a in enumerate(largs):
+                nl[i + 1] = a
+            if len(stack) > 12:
+                raise Unsupported('call depth')
+            st2 = stack
+            if poison is not None:
+                fr = stack[-1]
+                l2 = list(fr[3])
+                l2[poison] = ('consumed',)
+                st2 = stack[:-1] + ((fr[0], fr[1], fr[2], tuple(l2), fr[4], fr[5], fr[6]),)
+            ns = st2 + ((fname, 0, 0, tuple(nl), t['dest']['local'], t['target'], post),)
+            return [(None, (ns, start_rel, facts, at_end, hyps))]
+
+        def done(val):
+            nl = list(locs)
+            nl[t['dest']['local']] = val
+            fr = stack[-1]
+            ns = stack[:-1] + ((fr[0], t['target'], 0, tuple(nl), fr[4], fr[5], fr[6]),)
+            return [(None, (ns, start_rel, facts, at_end, hyps))]
+        clo = next((a for a in args[1:] if isinstance(a, tuple) and a and a[0] == 'closure'), None)
+        if name == '__call_closure':
+            return push(args[0][1], [args[0]] + list(args[1:]))
+        m = _re.search(r'Iterator>?::(find|position|any|all)$', name)
+        if m and clo is not None and args and isinstance(args[0], tuple) and args[0][0] == 'ref':
+            it = locs[args[0][1]]
+            if not (isinstance(it, tuple) and it[0] == 'sliceiter'):
+                raise Unsupported(f'{m.group(1)}() on something that is not an iterator over the input')
+            return push('__syn_' + m.group(1), [it, clo], poison=args[0][1])
+        a0 = args[0] if args else None
+        is_opt = isinstance(a0, tuple) and a0 and a0[0] == 'adt' and a0[1].endswith('Option')
+        if clo is not None and is_opt and name.endswith('Option::<T>::map'):
+            return done(('adt', 'Option', 0, ())) if a0[2] == 0 else push(clo[1], [clo, a0[3][0]], post=('some',))
+        if clo is not None and is_opt and name.endswith('Option::<T>::and_then'):
+            return done(('adt', 'Option', 0, ())) if a0[2] == 0 else push(clo[1], [clo, a0[3][0]])
+        if clo is not None and is_opt and name.endswith('Option::<T>::map_or') and len(args) == 3:
+            return done(args[1]) if a0[2] == 0 else push(clo[1], [clo, a0[3][0]])
+        if clo is not None and is_opt and name.endswith('Option::<T>::is_some_and'):
+            return done(INT(0)) if a0[2] == 0 else push(clo[1], [clo, a0[3][0]])
+        if is_opt and name.endswith('Option::<T>::is_some'):
+            return done(INT(int(a0[2] == 1)))
+        if is_opt and name.endswith('Option::<T>::is_none'):
+            return done(INT(int(a0[2] == 0)))
+        return None
+
+    def settle(self, cfg, r):
+        """outcome of a bounds test inside a summary: fork / record the refinement of at_end first (the statement is then re-executed)"""
+        stack, start_rel, facts, at_end, hyps = cfg
+        if len(r) > 1 or r[0][1] != at_end:
+            raise Refork([(None, (stack, start_rel, facts, a2, hyps)) for (v, a2) in r])
+        return r[0]
+
     def promoted_value(self, op):
         """value of a constant operand that refers to a promoted body `<fn>::promoted[i]` (straight-line: constants, references, aggregates)"""
         import re as _re
@@ -719,30 +867,63 @@ class Machine:
             if args[0] == ('slice',):
                 if self.param_start:
                     raise Unsupported('iteration over the whole buffer by a scanner started at an arbitrary offset')
-                return [(('sliceiter', ('idx', cfg[1])), ae)]
+                return [(('sliceiter', ('idx', cfg[1]), ('idx', cfg[1])), ae)]
         if name.endswith("<std::slice::Iter<'a, T> as std::iter::Iterator>::next") and args and args[0][0] == 'ref':
             locs = cfg[0][-1][3]
             it = locs[args[0][1]]
             if not (isinstance(it, tuple) and it[0] == 'sliceiter'):
                 raise Unsupported('next() on something that is not an iterator over the input')
             pos = it[1]
-            r = self.cmp_pos(cfg, 'Lt', pos, ('end', 0), lambda l, rr: l < rr)
-            if len(r) > 1:
-                # the bounds test forks on whether the input ends here: fix that first, then run the statement again
-                stack, start_rel, facts, at_end, hyps = cfg
-                raise Refork([(None, (stack, start_rel, facts, a2, hyps)) for (v, a2) in r])
-            (v, a2) = r[0]
+            # the bounds test may fork on whether the input ends here: that is fixed first, then the statement runs again
+            (v, a2) = self.settle(cfg, self.cmp_pos(cfg, 'Lt', pos, ('end', 0), lambda l, rr: l < rr))
             if not v[1]:
                 return [(('adt', 'Option', 0, ()), a2)]
             b = self.read_at(cfg, pos)           # may raise NeedRead: the byte is fixed, then the statement runs again
-            return [(('adt', 'Option', 1, (b,)), a2, None, ((args[0][1], ('sliceiter', ('idx', pos[1] + 1))),))]
+            return [(('adt', 'Option', 1, (b,)), a2, None, ((args[0][1], ('sliceiter', ('idx', pos[1] + 1), it[2])),))]
+        if (name.endswith("IntoIterator for &'a [T]>::into_iter") or name.endswith('<impl [T]>::iter')) and args and args[0][0] == 'sub':
+            return [(('sliceiter', args[0][1], args[0][1]), ae)]
+        if name == '__iter_offset' and args and args[0][0] == 'sliceiter':
+            it = args[0]
+            return [(('off', ('idx', it[1][1] - 1), it[2]), ae)]
+        if name.endswith('Try>::branch') and args and args[0][0] == 'adt' and args[0][1].endswith('Option'):
+            if args[0][2] == 1:
+                return [(('adt', 'ControlFlow', 0, (args[0][3][0],)), ae)]
+            return [(('adt', 'ControlFlow', 1, (('adt', 'Option', 0, ()),)), ae)]
+        if name.endswith('::from_residual') and 'Option' in name:
+            return [(('adt', 'Option', 0, ()), ae)]
+        if (name.endswith('<impl [T]>::get') or name.endswith('<impl [T]>::split_first') or name.endswith('<impl [T]>::first')) and args and (args[0] == ('slice',) or args[0][0] == 'sub'):
+            base = ('idx', cfg[1]) if args[0] == ('slice',) else args[0][1]
+            kind = name.rsplit('::', 1)[-1]
+            rng = args[1] if kind == 'get' else None
+            if args[0] == ('slice',) and self.param_start and (kind != 'get' or rng[0] == 'int' or (rng[0] == 'adt' and rng[3][0][0] == 'int')):
+                raise Unsupported('access relative to the start of the whole buffer by a scanner started at an arbitrary offset')
+            if kind == 'get' and rng[0] == 'adt' and rng[1].endswith('RangeFrom'):
+                # bytes.get(i..): Some(sub-slice) iff i <= len
+                st_ = rng[3][0]
+                if st_[0] == 'int':
+                    st_ = ('idx', st_[1] + cfg[1])
+                if args[0][0] == 'sub':
+                    raise Unsupported('range get on a sub-slice')
+                (v, a2) = self.settle(cfg, self.cmp_pos(cfg, 'Lt', st_, ('end', 0), lambda l, rr: l < rr))
+                if v[1] or self.as_pos(cfg, st_) <= 0:
+                    return [(('adt', 'Option', 1, (('sub', st_),)), a2)]
+                return [(('adt', 'Option', 0, ()), a2)]
+            if kind == 'get':
+                if rng[0] not in ('idx', 'int') or args[0][0] == 'sub':
+                    raise Unsupported('get with this kind of index')
+                pos = rng if rng[0] == 'idx' else ('idx', rng[1] + cfg[1])
+            else:
+                pos = base
+            (v, a2) = self.settle(cfg, self.cmp_pos(cfg, 'Lt', pos, ('end', 0), lambda l, rr: l < rr))
+            if not v[1]:
+                return [(('adt', 'Option', 0, ()), a2)]
+            b = self.read_at(cfg, pos)
+            if kind == 'split_first':
+                return [(('adt', 'Option', 1, (('tuple', (b, ('sub', ('idx', pos[1] + 1)))),)), a2)]
+            return [(('adt', 'Option', 1, (b,)), a2)]
         if name.endswith('<impl [T]>::get') and args and args[0] == ('slice',) and args[1][0] in ('idx', 'int'):
             pos = args[1] if args[1][0] == 'idx' else ('idx', args[1][1] + cfg[1])
-            r = self.cmp_pos(cfg, 'Lt', pos, ('end', 0), lambda l, rr: l < rr)
-            if len(r) > 1:
-                stack, start_rel, facts, at_end, hyps = cfg
-                raise Refork([(None, (stack, start_rel, facts, a2, hyps)) for (v, a2) in r])
-            (v, a2) = r[0]
+            (v, a2) = self.settle(cfg, self.cmp_pos(cfg, 'Lt', pos, ('end', 0), lambda l, rr: l < rr))
             if not v[1]:
                 return [(('adt', 'Option', 0, ()), a2)]
             return [(('adt', 'Option', 1, (self.read_at(cfg, pos),)), a2)]
